@@ -162,7 +162,7 @@ void MDSDRV_Data::add_ins_fm_4op(uint16_t id, const Tag& tag)
 
 	// Transpose
 	if(it != tag.end())
-		fm_data[29] = (std::strtol(it->c_str(), NULL, 10) + 24) * 2;
+		fm_data[29] = ((unsigned long)std::strtol(it->c_str(), NULL, 10) + 24) * 2;
 	else
 		fm_data[29] = 24 << 1;
 
